@@ -67,11 +67,14 @@ class Extract:
         self.strip_logs = False
         self.attrs = []
         self.verbatim = False
+        self.pub_fields = False
         self.sig_rewrites = []
 
 
-def _parse_unit(text):
-    """Split unit text into segments: ('text', str) | ('extract', Extract).  Also returns meta."""
+def _parse_unit(text, base_dir=None):
+    """Split unit text into segments: ('text', str) | ('extract', Extract).  Also returns meta.
+    `//@ include: <path relative to the unit>` splices another unit (its prelude and extracted
+    functions are generated and verified again here, so callers see proved contracts, not copies)."""
     meta = {"assume": [], "assumed_items": None, "fns": [], "canaries": [], "imports": []}
     segs = []
     lines = text.split("\n")
@@ -129,11 +132,12 @@ def _parse_unit(text):
                     (ex.before if k == "before" else ex.after).append((ma.group(1), []))
                     cur = (k, None)
                 elif k == "rewrite" or k == "sigrewrite":
-                    ma = re.match(r"`(.*)` => `(.*)`(?:\s+x(\d+))?\s*$", rest)
+                    ma = re.match(r"`(.*)` => `(.*)`(?:\s+x(\d+|\?))?\s*$", rest)
                     if not ma:
                         raise ValueError("bad rewrite directive: %r" % l2)
+                    unesc = lambda t: t.replace("\\n", "\n").replace("\\t", "\t")
                     (ex.rewrites if k == "rewrite" else ex.sig_rewrites).append(
-                        (ma.group(1), ma.group(2), int(ma.group(3) or 1)))
+                        (unesc(ma.group(1)), unesc(ma.group(2)), -1 if ma.group(3) == "?" else int(ma.group(3) or 1)))
                     cur = None
                 elif k == "strip_logs":
                     ex.strip_logs = True
@@ -144,11 +148,31 @@ def _parse_unit(text):
                 elif k == "verbatim":
                     ex.verbatim = True
                     cur = None
+                elif k == "pub_fields":
+                    ex.pub_fields = True
+                    cur = None
                 else:
                     raise ValueError("unknown extract directive %r" % l2)
                 i += 1
             i += 1  # skip end
             segs.append(("extract", ex))
+            continue
+        m = re.match(r"\s*//@ include:\s*(\S+)\s*$", ln)
+        if m:
+            if buf:
+                segs.append(("text", "\n".join(buf)))
+                buf = []
+            ipath = os.path.normpath(os.path.join(base_dir or ".", m.group(1)))
+            imeta, isegs = _parse_unit(open(ipath).read(), os.path.dirname(ipath))
+            segs += isegs
+            for a in imeta["assume"]:
+                if a not in meta["assume"]:
+                    meta["assume"].append(a)
+            for im in imeta["imports"]:
+                if im not in meta["imports"]:
+                    meta["imports"].append(im)
+            meta["included_assumed_items"] = meta.get("included_assumed_items", 0) + (imeta["assumed_items"] or 0) + imeta.get("included_assumed_items", 0)
+            i += 1
             continue
         m = re.match(r"\s*//@ (\w+):\s*(.*)$", ln)
         if m and m.group(1) in ("assume", "assumed_items", "fns", "import"):
@@ -160,7 +184,8 @@ def _parse_unit(text):
             elif k == "fns":
                 meta["fns"] += [x.strip() for x in v.split(",") if x.strip()]
             elif k == "import":
-                meta["imports"].append(v)
+                if v not in meta["imports"]:
+                    meta["imports"].append(v)
             i += 1
             continue
         m = re.match(r"\s*//@ canary (\S+?):\s*(.*)$", ln)
@@ -254,6 +279,9 @@ def transform(ex, src):
                                  (ex.anchor, old, text.count(old), cnt))
             text = text.replace(old, new)
             record["transformations"].append("T6 %r => %r x%d" % (old, new, cnt))
+        if ex.pub_fields:
+            text = re.sub(r"(?m)^(\s+)(?!pub\b)([a-z_][A-Za-z0-9_]*\s*:)", r"\1pub \2", text)
+            record["transformations"].append("T5 all fields made pub")
         return "".join(a + "\n" for a in ex.attrs) + text, record
     if ex.strip_logs:
         t2 = _strip_log_macros(text)
@@ -261,6 +289,11 @@ def transform(ex, src):
             record["transformations"].append("T3 log macros removed: %d" % t2.count("/* T3:"))
         text = t2
     for old, new, cnt in ex.rewrites:
+        if cnt == -1:  # optional rewrite (`x?`): applied wherever the pattern occurs, possibly nowhere
+            if old in text:
+                record["transformations"].append("T6 %r => %r x%d (optional)" % (old, new, text.count(old)))
+                text = text.replace(old, new)
+            continue
         if text.count(old) != cnt:
             raise LostAnchor("%s: rewrite anchor %r occurs %d times, expected %d" %
                              (ex.anchor, old, text.count(old), cnt))
@@ -349,7 +382,9 @@ ASSUMPTION_RE = re.compile(r"external_body|assume_specification|\bassume\s*\(|\b
 
 def generate(unit_path, repo=REPO, canary=None):
     text = open(unit_path).read()
-    meta, segs = _parse_unit(text)
+    meta, segs = _parse_unit(text, os.path.dirname(os.path.abspath(unit_path)))
+    if meta["assumed_items"] is not None:
+        meta["assumed_items"] += meta.get("included_assumed_items", 0)
     out = [HEADER]
     for imp in meta["imports"]:
         out.append(imp + "\n")
@@ -510,8 +545,8 @@ def run_unit(prop, unit_path, tier, seed=0, repo=REPO):
                 continue
             cf = os.path.join(d, name + "_canary_%s.rs" % cfn)
             open(cf, "w").write(cgen)
-            c_rc, (c_out, c_err), _ = _run_split(["verus", cf, "--output-json", "--rlimit", rlimit,
-                                                 "--verify-function", cfn, "--verify-root"], d, env, 1200)
+            c_rc, (c_out, c_err), _ = _run_split(["verus", cf, "--output-json", "--rlimit", rlimit],
+                                                 d, env, 1200)
             try:
                 cj = json.loads(c_out[c_out.index("{"):])
                 cerr = cj["verification-results"].get("errors", 0)
